@@ -39,7 +39,7 @@ XML_PROLOG = b'<?xml version="1.0" encoding="utf-8"?>'
 # --------------------------------------------------------------------------------------------- TLC side
 def _consts(run, registered):
     reg = '{' + ', '.join(f'"{r}"' for r in registered) + '}'
-    q = dict(MaxN=24, MaxC=7, MutN=3, MutC=2, ShortLen=4, MaxEntries=2, Registered=reg)
+    q = dict(MaxN=20, MaxC=6, MutN=3, MutC=2, ShortLen=4, MaxEntries=2, Registered=reg)
     t = dict(MaxN=64, MaxC=17, MutN=6, MutC=3, ShortLen=6, MaxEntries=3, Registered=reg)
     return run.pick(q, t)
 
@@ -215,7 +215,7 @@ def conc_chunk(ctx, case, idx):
     reply = body[::-1]
     codings = ['none', *ctx.registered]
     for k, coding in enumerate(codings):
-        if run.quick and k != idx % len(codings) and coding != 'none':
+        if (run.quick or n > 32) and k != idx % len(codings) and coding != 'none':
             continue
         recs.append(_exchange(ctx, body, reply, coding, c, 'sync', {'n': n, 'c': c, 'pat': pat}))
     if c == 1:  # Content-Length framing
@@ -372,8 +372,12 @@ def conc_nego(ctx, case, idx, body, reply):
                      'x': repr(text)})
 
     # the server answers a request that carries the header
-    combos = [(s, e) for s in range(N_STYLES) for e in usable] if full else \
-        [((idx + k) % N_STYLES, e) for k, e in enumerate(usable)] + [((idx + 1) % N_STYLES, usable[-1])]
+    if full and not ctx.run.quick:
+        combos = [(s, e) for s in range(N_STYLES) for e in usable]
+    elif full:
+        combos = [(s, e) for k, e in enumerate(usable) for s in ((idx + k) % N_STYLES, (idx + k + 2) % N_STYLES)]
+    else:
+        combos = [((idx + k) % N_STYLES, e) for k, e in enumerate(usable)]
     for style, enabled in combos:
         if style == 3 and not any(e['tok'] not in ('*',) for e in hdr):
             continue
@@ -383,7 +387,7 @@ def conc_nego(ctx, case, idx, body, reply):
         res, val, rh = H.read_response(s.raw_response)
         rec('server', enabled, text, rh.get('content-encoding', 'none'), s.res == 'ok' and res == 'body' and val == reply)
     # the provider sends a notification to a subscriber that sent the header with its Subscribe request
-    combos = [((idx + k) % N_STYLES, e) for k, e in enumerate(usable)]
+    combos = [((idx + k) % N_STYLES, e) for k, e in enumerate(usable) if full or (idx + k) % 2 == 0 or not e]
     for style, enabled in combos:
         text = header_text(hdr, style)
         seen = {}
@@ -563,17 +567,27 @@ def _check(run):  # noqa: C901, PLR0912, PLR0915
 
     # 1. the model: laws on every enumerated case, reader machine (safety + liveness); TLC emits the cases
     parts = ['chunk', 'mutant', 'short', 'coding', 'nego', 'big']
+    misc = ['mutant', 'short', 'coding', 'big']   # quick tier: one TLC run for the small domains (fewer JVM starts)
+    emit_parts = ['chunk', 'nego', 'misc'] if run.quick else parts
+    reader_doms = ['both'] if run.quick else ['short', 'mutant']
     with ThreadPoolExecutor(max_workers=8) as pool:
-        futs = {p: pool.submit(_emit, run, consts, p) for p in parts}
-        rfuts = {d: pool.submit(_reader_mc, run, consts, d) for d in ('short', 'mutant')}
+        futs = {p: pool.submit(_emit, run, consts, p) for p in emit_parts}
+        rfuts = {d: pool.submit(_reader_mc, run, consts, d) for d in reader_doms}
         cov = pool.submit(_reader_mc, run, consts, 'tiny', True)
         cases = {}
-        for p in parts:
-            res, cases[p] = futs[p].result()
+        for p in emit_parts:
+            res, cs = futs[p].result()
             run.add_tlc(res)
+            if p == 'misc':
+                for m in misc:
+                    cases[m] = [c for c in cs if c['kind'] == m]
+            else:
+                cases[p] = cs
         for f in rfuts.values():
             run.add_tlc(f.result())
         run.add_tlc(cov.result(), ['ReadSizeByte', 'ReadData', 'ReadCrLf'])
+    if any(not cases[p] for p in parts):
+        raise MachineryError(f'empty domain: { {p: len(cases[p]) for p in parts} }')
     run.note('cases', {p: len(c) for p, c in cases.items()})
     run.note('exhaustive', True)
 
@@ -623,20 +637,27 @@ def _check(run):  # noqa: C901, PLR0912, PLR0915
         run.sample({k: v for k, v in rec.items() if k not in ('stream',)})
 
     # 3. code -> spec: TLC judges every recorded call
-    chunk_of = {'chunk': 600, 'mutant': 100000, 'short': 100000, 'coding': 100000, 'nego': 6000, 'big': 1000}
-    with ThreadPoolExecutor(max_workers=4) as pool:
-        vf = {p: pool.submit(_validate, run, p, traces[p], registered, chunk_of[p]) for p in parts}
-        results = {p: vf[p].result() for p in parts}
+    slice_of = {'chunk': 400, 'mutant': 100000, 'short': 50000, 'coding': 100000, 'nego': 4000, 'big': 1000}
+    if run.quick:
+        jobs = [[('chunk', i) for i in range(len(traces['chunk']))], [('nego', i) for i in range(len(traces['nego']))],
+                [(p, i) for p in misc for i in range(len(traces[p]))]]
+    else:
+        jobs = [[(p, i) for i in range(off, min(off + slice_of[p], len(traces[p])))]
+                for p in parts for off in range(0, len(traces[p]), slice_of[p])]
+    with ThreadPoolExecutor(max_workers=6) as pool:
+        futs = [pool.submit(_validate, run, f'job{j}', [traces[p][i] for p, i in refs], registered, len(refs))
+                for j, refs in enumerate(jobs)]
+        results = [f.result() for f in futs]
     found = []
-    for p in parts:
-        sub, rejects = results[p]
+    for refs, (sub, rejects) in zip(jobs, results):
         run.tlc += sub.tlc
         run.traces_validated += sub.traces_validated
         for ti, li, clause in rejects:
-            rec = traces[p][ti][li]
+            p, i = refs[ti]
+            rec = traces[p][i][li]
             if clause == 'harness_parser_agrees':
                 raise MachineryError(f'python mirror py_parse_chunked disagrees with HttpFraming!Parse on {rec}')
-            found.append((_size_key(rec), p, ti, li, clause))
+            found.append((_size_key(rec), p, i, li, clause))
     found.sort(key=lambda f: (f[0], f[1], f[2], f[3]))
     for _sz, p, ti, li, clause in found:
         rec = traces[p][ti][li]
